@@ -121,7 +121,6 @@ pub fn hashing<T: HElem, N: ArrayLength, const R: usize>() {
     kani_cover!(h1.len > 2);
 }
 
-#[cfg(kani)]
 pub fn debug_fmt<T, N: ArrayLength, const R: usize>() {
     let a: GenericArray<Tok, N> = GenericArray::generate(|_| Tok(any_u8()));
     let mut s1 = Sink::new();
@@ -187,7 +186,6 @@ pub mod q {
             nested_n2: <GenericArray<u8, U2>, U2, 0> unwind 5;
         }
     }
-    #[cfg(kani)]
     pub mod debug_fmt {
         use super::super::debug_fmt;
         use crate::common::*;
@@ -236,7 +234,6 @@ pub mod t {
             nested_n3: <GenericArray<u8, U2>, U3, 0> unwind 6;
         }
     }
-    #[cfg(kani)]
     pub mod debug_fmt {
         use super::super::debug_fmt;
         use crate::common::*;
